@@ -31,12 +31,14 @@ type path struct {
 	acts  []string
 	calls int
 	done  bool
+	errAt string // round 8c: what `err == nil` means here (set by the last statement that assigned err; "" = the vocabulary's atom)
 }
 
 type vocab struct {
 	atoms  map[string]string
 	acts   map[string]string
 	ignore map[string]bool
+	prefix [][2]string
 }
 
 var phases = map[string]string{"PhaseError": ".error", "PhaseQueued": ".queued", "PhaseInProgress": ".inProgress", "PhaseDone": ".done"}
@@ -91,6 +93,9 @@ func (v *vocab) atomOf(s string, p *path) string {
 	if s == "op.Cancelled()" {
 		return fmt.Sprintf(".cancelled %d", p.calls)
 	}
+	if (s == "err == nil" || s == "nil == err") && p.errAt != "" {
+		return p.errAt
+	}
 	if a, ok := v.atoms[s]; ok {
 		return a
 	}
@@ -140,7 +145,7 @@ func expand(e ast.Expr, want bool) [][]lit {
 }
 
 func clone(p path) path {
-	return path{lits: append([]string{}, p.lits...), acts: append([]string{}, p.acts...), calls: p.calls, done: p.done}
+	return path{lits: append([]string{}, p.lits...), acts: append([]string{}, p.acts...), calls: p.calls, done: p.done, errAt: p.errAt}
 }
 
 func (v *vocab) withLits(p path, ls []lit) path {
@@ -158,7 +163,19 @@ func (v *vocab) act(p path, s string) path {
 	q := clone(p)
 	a, ok := v.acts[s]
 	if !ok {
+		for _, pf := range v.prefix {
+			if strings.HasPrefix(s, pf[0]) {
+				a, ok = pf[1], true
+			}
+		}
+	}
+	if !ok {
 		a = ".unknown /- " + strings.ReplaceAll(s, "-/", "- /") + " -/"
+	}
+	// "acts@atom": from here on `err == nil` on this path is that atom (the statement assigned err)
+	if i := strings.Index(a, "@"); i >= 0 {
+		q.errAt = a[i+1:]
+		a = a[:i]
 	}
 	for _, one := range strings.Split(a, ";") {
 		one = strings.TrimSpace(one)
@@ -273,7 +290,25 @@ func (v *vocab) one(s ast.Stmt, p path) []path {
 		out = append(out, v.stmts(def.Body, []path{v.withLits(p, []lit{{a, false}})})...)
 		return out
 	}
-	return []path{v.act(p, skel.Src(s))}
+	return []path{v.act(p, stmtKey(s))}
+}
+
+// stmtKey: the source of a statement; an RPC call keeps its service and method names (skel.Src replaces string literals)
+func stmtKey(s ast.Stmt) string {
+	if as, ok := s.(*ast.AssignStmt); ok && len(as.Rhs) == 1 {
+		if ce, ok := as.Rhs[0].(*ast.CallExpr); ok && skel.Src(ce.Fun) == "spt.rpcClient.CallContext" && len(ce.Args) == 6 {
+			var parts []string
+			for _, a := range ce.Args[1:] {
+				if bl, ok := a.(*ast.BasicLit); ok {
+					parts = append(parts, bl.Value)
+				} else {
+					parts = append(parts, skel.Src(a))
+				}
+			}
+			return skel.Src(as.Lhs[0]) + " " + as.Tok.String() + " rpc " + strings.Join(parts, " ")
+		}
+	}
+	return skel.Src(s)
 }
 
 func table(b *strings.Builder, name, doc, file, recv, fn string, v *vocab) {
@@ -381,6 +416,26 @@ func main() {
 			"pi, ok := spt.optracker.GetExists(ctx, c)": ".getExists", "return spt.recoverWithPinInfo(ctx, pi)": ".retRecOp",
 			"return spt.recoverWithPinInfo(ctx, spt.Status(ctx, c))": ".retRecStatus",
 		}))
+	stv := mk(
+		map[string]string{"ok": ".found", "err == state.ErrNotFound": ".notFound", "gpin.Type == api.MetaType": ".isMeta",
+			"gpin.IsRemotePin(spt.peerID)": ".isRemote", "ipfsStatus == api.TrackerStatusUnpinned": ".ipfsUnpinned"},
+		map[string]string{
+			"oppi, ok := spt.optracker.GetExists(ctx, c)": ".getExists", "return oppi": ".retOp", "var gpin *api.Pin": "",
+			"st, err := spt.getState(ctx)": "@.stateOk", "addError(pinInfo, err)": ".addError", "return pinInfo": ".retInfo",
+			"gpin, err = st.Get(ctx, c)": "@.getOk", "pinInfo.Name = gpin.Name": "", "var ips api.IPFSPinStatus": "",
+			`err = rpc "" "IPFSConnector" "PinLsCid" gpin &ips`: ".pinLsCid@.lsOk", "ipfsStatus := ips.ToTrackerStatus()": "",
+			"pinInfo.Error = errUnexpectedlyUnpinned.Error()": "", "pinInfo.Status = ipfsStatus": ".setIpfs",
+		})
+	stv.prefix = [][2]string{{"pinInfo := &api.PinInfo{ Cid: c, Peer: spt.peerID,", ""}}
+	for k, c := range statuses {
+		stv.acts["pinInfo.Status = "+k] = ".setStatus " + c
+	}
+	table(&b, "status", "Tracker.Status", st, "*Tracker", "Status", stv)
+	aev := mk(nil, map[string]string{"pinInfo.Error = err.Error()": ""})
+	for k, c := range statuses {
+		aev.acts["pinInfo.Status = "+k] = ".setStatus " + c
+	}
+	table(&b, "addError", "addError (stateless.go)", st, "", "addError", aev)
 	consts(&b, "phaseConsts", op, "Phase")
 	consts(&b, "typeConsts", op, "OperationType")
 	b.WriteString("end CV.C05.Gen.Sem\n")
